@@ -589,11 +589,11 @@ def subprocess_crosscheck(spec, argv, texts, stdin, r, res):
         for hs in ('0', '12345'):
             code, out, err = cli.run_subprocess(real + ['--encoding', 'utf-8'],
                                                 stdin_bytes=texts[0].encode('utf-8') if stdin else b'',
-                                                cwd=d, hashseed=hs, unbuffered=(hs != '0'))
+                                                cwd=d, hashseed=hs, unbuffered=(hs != '0'), optimize=(hs != '0'))
             outs.append((code, out, err))
         res.hit('probe.subprocess_crosscheck')
         res.event('subprocess', outs[0][0], digest.sha(outs[0][1].hex()))
-        # child 0: hash seed 0, block-buffered stdout (a pipe); child 1: another hash seed, unbuffered stdout
+        # child 0: hash seed 0, block-buffered stdout (a pipe); child 1: another hash seed, unbuffered stdout, python -O
         for k, (code, out, err) in enumerate(outs):
             if r.exc is None and (code != r.exit or out != r.stdout_bytes):
                 res.violate('subprocess', 'in-process-vs-subprocess-differ', argv=argv, exit=[r.exit, code], child=k,
